@@ -489,9 +489,18 @@ pub trait BackendTransaction {
                             */
                             IdList::Indexed(r)
                         }
-                        (IdList::Indexed(ia), IdList::Partial(ib))
-                        | (IdList::Partial(ia), IdList::Indexed(ib))
-                        | (IdList::Partial(ia), IdList::Partial(ib)) => {
+                        // The excluded set is only a superset of what really matches the inner term
+                        // (partial index). Subtracting it would drop entries that do not match the
+                        // inner term, so keep the candidates and let the entry filter test decide.
+                        (IdList::Indexed(ia), IdList::Partial(_))
+                        | (IdList::Partial(ia), IdList::Partial(_))
+                        | (IdList::Indexed(ia), IdList::PartialThreshold(_))
+                        | (IdList::Partial(ia), IdList::PartialThreshold(_)) => IdList::Partial(ia),
+                        (IdList::PartialThreshold(ia), IdList::Partial(_))
+                        | (IdList::PartialThreshold(ia), IdList::PartialThreshold(_)) => {
+                            IdList::PartialThreshold(ia)
+                        }
+                        (IdList::Partial(ia), IdList::Indexed(ib)) => {
                             let r = ia.andnot(ib);
                             // DO trigger threshold on partials, because we have to apply the filter
                             // test anyway, so we may as well shortcut at this point.
@@ -502,14 +511,8 @@ pub trait BackendTransaction {
                                 IdList::Partial(r)
                             }
                         }
-                        (IdList::Indexed(ia), IdList::PartialThreshold(ib))
-                        | (IdList::PartialThreshold(ia), IdList::Indexed(ib))
-                        | (IdList::PartialThreshold(ia), IdList::PartialThreshold(ib))
-                        | (IdList::PartialThreshold(ia), IdList::Partial(ib))
-                        | (IdList::Partial(ia), IdList::PartialThreshold(ib)) => {
+                        (IdList::PartialThreshold(ia), IdList::Indexed(ib)) => {
                             let r = ia.andnot(ib);
-                            // DO trigger threshold on partials, because we have to apply the filter
-                            // test anyway, so we may as well shortcut at this point.
                             if r.below_threshold(thres) && f_rem_count > 0 {
                                 let setplan = FilterPlan::AndPartialThreshold(plan);
                                 return Ok((IdList::PartialThreshold(r), setplan));
